@@ -137,7 +137,7 @@ pub fn work_base() -> String {
     static BASE: OnceLock<String> = OnceLock::new();
     BASE.get_or_init(|| {
         let shm = "/dev/shm/verif-work";
-        if std::fs::create_dir_all(shm).is_ok() && std::fs::write(format!("{}/.probe-{}", shm, std::process::id()), b"x").is_ok() {
+        if std::env::var_os("VERIF_NO_SHM").is_none() && std::fs::create_dir_all(shm).is_ok() && std::fs::write(format!("{}/.probe-{}", shm, std::process::id()), b"x").is_ok() {
             let _ = std::fs::remove_file(format!("{}/.probe-{}", shm, std::process::id()));
             shm.to_string()
         } else {
